@@ -41,6 +41,21 @@ def as_dim(t):
     return SV(t)
 
 
+def norm_index(I, t, nt):
+    """Normalise a possibly negative index against dimension nt; uses the path condition to avoid an ite."""
+    t = z3.simplify(t)
+    if z3.is_int_value(t):
+        v = t.as_long()
+        return t if v >= 0 else z3.simplify(nt + v)
+    cache = I.ctx.ghost.setdefault("nonneg", {})
+    key = t.get_id()
+    if key not in cache:
+        cache[key] = (I.ctx.entails(t >= 0), t)      # keep the term alive with its id
+    if cache[key][0]:
+        return t
+    return z3.simplify(z3.If(t < 0, t + nt, t))
+
+
 def zmax(a, b):
     return z3.If(a >= b, a, b)
 
@@ -53,6 +68,8 @@ NAN = None   # set below
 
 
 def norm_elem(v, kind):
+    if isinstance(v, z3.ExprRef):
+        v = SV(v)
     if kind == "float":
         if isinstance(v, SV):
             if v.is_real:
@@ -827,7 +844,7 @@ class Numpy:
                 t = zint(p)
                 nt = zint(n)
                 I.require("IndexError", z3.And(t >= -nt, t < nt), node)
-                remap[va] = ("fix", z3.simplify(z3.If(t < 0, t + nt, t)))
+                remap[va] = ("fix", norm_index(I, t, nt))
             else:
                 start, step, ln = self.slice_bounds(I, p, n, node)
                 remap[va] = ("ax", len(new_shape), start, step)
@@ -995,7 +1012,7 @@ class Numpy:
                 t = zint(p)
                 nt = zint(n)
                 I.require("IndexError", z3.And(t >= -nt, t < nt), node)
-                remap[va] = ("fix", z3.simplify(z3.If(t < 0, t + nt, t)))
+                remap[va] = ("fix", norm_index(I, t, nt))
             else:
                 start, step, ln = self.slice_bounds(I, p, n, node)
                 remap[va] = ("ax", len(new_shape), start, step)
